@@ -456,6 +456,26 @@ func renderAdjust(s Script) *api.ContainerAdjustment {
 	w := s.Plugin + 1
 	a := &api.ContainerAdjustment{}
 	marker := func(op Op) {
+		if op.Payload {
+			// the marker is the container's own entry marked in place: it carries a whole
+			// entry (value, source, type, device numbers), which a removal marker's key
+			// makes irrelevant
+			switch op.Fam {
+			case "ann":
+				a.AddAnnotation(api.MarkForRemoval(op.Key), strVal(0, "ann", op.Key))
+			case "env":
+				a.AddEnv(api.MarkForRemoval(op.Key), strVal(0, "env", op.Key))
+			case "mount":
+				m := mkMount(0, op.Key)
+				m.Destination = api.MarkForRemoval(m.Destination)
+				a.AddMount(m)
+			case "dev":
+				d := mkDevice(0, op.Key)
+				d.Path = api.MarkForRemoval(d.Path)
+				a.AddDevice(d)
+			}
+			return
+		}
 		switch op.Fam {
 		case "ann":
 			a.RemoveAnnotation(op.Key)
@@ -465,6 +485,10 @@ func renderAdjust(s Script) *api.ContainerAdjustment {
 			a.RemoveMount(op.Key)
 		case "dev":
 			a.RemoveDevice(op.Key)
+		case "args":
+			if op.Act == "del" {
+				a.UpdateArgs(nil) // the bare override marker: Args == [""]
+			}
 		}
 	}
 	for pass := 0; pass < 3; pass++ { // pass 0: removal markers, pass 1: everything else, pass 2: late markers (Rev)
